@@ -577,6 +577,9 @@ stringconcat(struct stringlit *str, bool forceutf8)
 	arrayforeach(&parts, p) {
 		src = p->str;
 		while (*src != '"') {
+			/* the result of '#' may end in an escaped quote */
+			if (!*src)
+				error(&p->loc, "string literal is not terminated");
 			hexoct = false;
 			src += decodechar(src, &chr, &hexoct, "string literal", &p->loc);
 			dst += encodechar(dst, chr, hexoct);
